@@ -22,7 +22,7 @@ type ORun struct {
 
 type Obs struct {
 	Runs   []*ORun
-	Cfg    map[int]string
+	Cfg    map[[2]int]string // (node, phase: 0 as built, 1 after reconfiguration)
 	Store  string
 	Cancel []simrt.Event // all cancel events, whole log
 }
@@ -36,7 +36,7 @@ func isCallback(k string) bool {
 }
 
 func parseObs(evs []simrt.Event) *Obs {
-	o := &Obs{Cfg: map[int]string{}}
+	o := &Obs{Cfg: map[[2]int]string{}}
 	var cur *ORun
 	for i := range evs {
 		e := evs[i]
@@ -52,7 +52,7 @@ func parseObs(evs []simrt.Event) *Obs {
 			cur = nil
 			continue
 		case "cfg":
-			o.Cfg[e.N] = e.S1
+			o.Cfg[[2]int{e.N, e.V}] = e.S1
 			continue
 		case "store":
 			o.Store = e.S1
